@@ -165,6 +165,31 @@ def writer_directive_gates(path):
     return sorted(out.items())
 
 
+def tok_to_num_facts(path):
+    """which literal rules _GD_TokToNum has: (accepts strtod underflow, integer zero left to strtod)"""
+    src = strip_comments(open(path).read())
+    m = re.search(r"int _GD_TokToNum\(.*?\n}\n", src, re.S)
+    if not m:
+        problems.append("PROBLEM _GD_TokToNum not found")
+        return False, False
+    b = re.sub(r"\s+", " ", m.group(0))
+    uf_r = "errno == ERANGE && dr > -1 && dr < 1" in b
+    uf_i = "errno == ERANGE && di > -1 && di < 1" in b
+    if uf_r != uf_i:
+        problems.append("PROBLEM _GD_TokToNum: underflow rule present for only one of the two parts")
+    if "ERANGE" in b.replace("errno == ERANGE && dr > -1 && dr < 1", "").replace("errno == ERANGE && di > -1 && di < 1", "").replace("rt == GD_UNKNOWN && errno == ERANGE", "").replace("it == GD_UNKNOWN && errno == ERANGE", ""):
+        problems.append("PROBLEM _GD_TokToNum: unrecognised use of ERANGE")
+    z = ["(ir != 0 || !re)" in b, "(ii != 0 || !im)" in b, "if (it == GD_NULL) *im = di;" in b]
+    if any(z) and not all(z):
+        problems.append("PROBLEM _GD_TokToNum: zero rule only partly present")
+    # the shapes the reader model assumes
+    for need in ("ir = gd_strtoll(token, &endptr, base);", "ur = gd_strtoull(token, &endptr, base);", "dr = gd_strtod(token, &endptr);",
+                 "ii = gd_strtoll(token, &endptr, base);", "di = gd_strtod(token, &endptr);"):
+        if need not in b:
+            problems.append("PROBLEM _GD_TokToNum: expected statement missing: " + need)
+    return (uf_r and uf_i), all(z)
+
+
 def coq_str(s):
     return '"' + s.replace('"', '""') + '"'
 
@@ -203,6 +228,12 @@ def main():
     lines.append("(* true when _GD_FindVersion applies the per-type version rule only to entries that are not hidden *)")
     lines.append("Definition hidden_skips_type_rule : bool := %s." % ("true" if hidden_skips else "false"))
     lines.append("")
+    uf, zf = tok_to_num_facts(os.path.join(REPO, "src", "parse.c"))
+    lines.append("(* _GD_TokToNum accepts a strtod result flagged ERANGE when it is small (underflow to a subnormal) *)")
+    lines.append("Definition tok_accepts_underflow : bool := %s." % ("true" if uf else "false"))
+    lines.append("(* _GD_TokToNum leaves an integer zero to strtod when a floating-point value is wanted (keeps the sign of -0) *)")
+    lines.append("Definition tok_zero_via_strtod : bool := %s." % ("true" if zf else "false"))
+    lines.append("")
     table("parser_directive_gate", dirs, "directive -> GD_PVERS_GE gate in _GD_ParseDirective")
     os.makedirs(os.path.dirname(OUT), exist_ok=True)
     txt = "\n".join(lines) + "\n"
@@ -211,6 +242,7 @@ def main():
         open(OUT, "w").write(txt)
     wc = [d for f, fn, ln, cv, d in fs if fn == "_GD_WriteConst"]
     print("HIDDEN_SKIPS %d" % (1 if hidden_skips else 0))
+    print("TOK_UNDERFLOW %d TOK_ZERO %d" % (1 if uf else 0, 1 if zf else 0))
     print("FLUSH_DIGITS %d" % (min(wc) if wc else (min(d for *_, d in fs) if fs else 0)))
     print("flush sites: %d  ascii sites: %d  writer_min_version: %d  parser_gate: %d" % (len(fs), len(asc), len(wmin), len(gates)))
     for p in problems:
